@@ -305,7 +305,7 @@ fn corrupt_spec() -> CheckSpec {
         gen: Box::new(|rs, _i, tier| corrupt_case(rs, tier)),
         exec: Box::new(exec_case),
         evals: Box::new(|r| r.stats.extra.get("corruptions_checked").copied().unwrap_or(0).max(1)),
-        runs_quick: 500,
+        runs_quick: 220,
         runs_thorough: 20_000,
         wall_quick: 70.0,
         wall_thorough: 1500.0,
